@@ -300,7 +300,8 @@ def usage_run(k, sit):
                 os.kill(p.pid, signal.SIGINT)
             except OSError:
                 pass
-    r = runs.run_ddsmt(wd, text, spec, opts, entry=sit['entry'], timeout=120,
+    r = runs.run_ddsmt(wd, text, spec, opts, entry=sit['entry'],
+                       timeout=runs.time_limit(120),
                        popen_hook=hook,
                        mangle=f if f not in ('none', 'interrupt',
                                              'match-out-absent',
@@ -427,6 +428,7 @@ def main():
     _lap('edits')
     # ---- (b) usage matrix through the CLI -------------------------------------
     from concurrent.futures import ThreadPoolExecutor
+    runs.calibrate()
     with ThreadPoolExecutor(8) as ex:
         urs = list(ex.map(lambda kv: usage_run(*kv), enumerate(sits)))
     for sit, ur in zip(sits, urs):
@@ -436,7 +438,7 @@ def main():
             ':' + sit['flag'] if sit.get('flag', 'none') != 'none' else '')
         rp = {'situation': sit}
         if ur.timed_out:
-            rep.violation(f'usage-hang:{sig}', f'no exit within 120 s: {sit}',
+            rep.violation(f'usage-hang:{sig}', f'no exit within the time limit: {sit}',
                           rp)
             continue
         if 'Traceback (most recent call last)' in ur.stderr:
@@ -483,7 +485,8 @@ def main():
         opts = ['--strategy', ('ddmin', 'hierarchical', 'hybrid')[k % 3],
                 '-j', str((1, 2)[k % 2])]
         cfgs.append((text, spec, opts, {'n': k}))
-    items = S.execute(cfgs, label='c04e2e', timeout=200) if not a.replay else []
+    items = S.execute(cfgs, label='c04e2e',
+                      timeout=runs.time_limit(200)) if not a.replay else []
     for it in items:
         rep.count()
         ur = it.run
